@@ -7,6 +7,7 @@ from __future__ import annotations
 
 import asyncio
 import gc
+import functools
 import hashlib
 import inspect
 import logging
@@ -37,6 +38,55 @@ class FactoryError(Exception):
 
 class IterError(Exception):
     """Raised by a harness-owned argument iterable when it is advanced (unusual but legal user code)."""
+
+
+_FACTORY_EXC = (FactoryError, TypeError, ValueError, KeyError, AttributeError)
+
+
+class _CbOwner:
+    """An object whose bound methods are handed to the pool as callbacks; nothing else refers to it."""
+
+    def __init__(self, fn):
+        self._fn = fn
+
+    def on_task(self, task_id):
+        return self._fn(task_id)
+
+    async def on_task_async(self, task_id):
+        return await self._fn(task_id)
+
+
+class _ReIterable:
+    """The argument iterable as a re-iterable container (every iter() starts a fresh pass) that also has a length."""
+
+    def __init__(self, sim, req):
+        self._sim, self._req = sim, req
+
+    def __iter__(self):
+        self._sim.stats["probe:container_iterable_iter_calls"] += 1
+        return self._sim._arg_iter(self._req)
+
+    def __len__(self):
+        return len(self._req.elems)
+
+
+class _CbCallable:
+    """A callback that is an instance with __call__ (not a function, no __name__)."""
+    __slots__ = ("_fn",)
+
+    def __init__(self, fn):
+        self._fn = fn
+
+    def __call__(self, task_id):
+        return self._fn(task_id)
+
+
+def _cb_with_prefix(fn, _bound, task_id):
+    return fn(task_id)
+
+
+async def _acb_with_prefix(fn, _bound, task_id):
+    return await fn(task_id)
 
 
 class HarnessError(Exception):
@@ -199,6 +249,7 @@ class PoolCtx:
         self.cb_open = 0           # tasks currently inside a (gated) callback
         self.pending_done = []     # TaskRec in state E whose task is not done yet
         self.active_flush = 0
+        self.act_drivers = []
         self.gathers = []          # driver records
         self.waiters = []          # until_closed driver records
         self.start_calls = 0
@@ -209,11 +260,12 @@ class PoolCtx:
         self.hi = 0
         self.call_failures = 0
         self.set_while_busy = False
+        self.resized_idle = False
 
 
 class Driver:
     __slots__ = ("kind", "pc", "task", "rex", "state", "exc", "snapshot", "seq_start", "seq_end",
-                 "started", "label")
+                 "started", "label", "sure", "overlapped")
 
     def __init__(self, kind, pc, rex=False, label=None):
         self.kind = kind
@@ -227,6 +279,8 @@ class Driver:
         self.seq_end = None
         self.started = False
         self.label = label
+        self.sure = ()           # tasks the pool certainly still knows when this call starts
+        self.overlapped = False  # another flush()/gather_and_close() of the same pool was active at some point
 
 
 _TASKNAME_RE = re.compile(r"_Task-(-?\d+)$")
@@ -293,14 +347,25 @@ def _not_coroutine_function(k):
 
 
 class Payload:
-    """Opaque argument object compared by identity."""
+    """Opaque argument object compared by identity.  Like many real-world objects (arrays, ORM rows, mocks) it has
+    no truth value, no equality, no hash, no length: the pool is only expected to pass it on."""
     __slots__ = ("tag",)
+    __hash__ = None
 
     def __init__(self, tag):
         self.tag = tag
 
     def __repr__(self):
         return f"<P {self.tag}>"
+
+    def _refuse(self, *a, **k):
+        raise PayloadTouched(f"the pool inspected argument object {self!r} instead of just passing it on")
+
+    __bool__ = __eq__ = __ne__ = __len__ = __iter__ = __lt__ = __contains__ = _refuse
+
+
+class PayloadTouched(Exception):
+    pass
 
 
 # ============================================================================= Sim
@@ -395,13 +460,13 @@ class Sim:
         with running(self.loop):
             for i, pcfg in enumerate(self.cfg["pools"]):
                 self._make_pool(i, pcfg)
-        names = [pc.pool_str for pc in self.pools if pc.cfg.get("name") is None]   # unnamed pools get distinct names
+        names = [pc.pool_str for pc in self.pools if not pc.cfg.get("name")]   # unnamed pools ('' is no name) get distinct names
         if len(set(names)) != len(names):
             self.violate("C11", "pool_names_distinct", f"pool names collide: {names}")
         for pc in self.pools:
             pcfg = pc.cfg
             exp_cls = "SimpleTaskPool" if pc.cls == "S" else "TaskPool"
-            if pcfg.get("name") is not None and pc.pool_str != f"{exp_cls}-{pcfg['name']}":
+            if pcfg.get("name") and pc.pool_str != f"{exp_cls}-{pcfg['name']}":
                 self.violate("C11", "pool_name", f"{pc.pool_str!r} for name {pcfg['name']!r}")
 
     def _make_pool(self, i, pcfg):
@@ -441,10 +506,10 @@ class Sim:
         self._make_pool(i, pcfg)
         pc = self.pools[i]
         live = [p.pool_str for p in self.pools[:i] if not p.closed]
-        if pc.pool_str in live and pcfg.get("name") is None:
+        if pc.pool_str in live and not pcfg.get("name"):
             self.violate("C11", "pool_names_distinct", f"new pool is named {pc.pool_str!r} like a pool that is still open")
         exp_cls = "SimpleTaskPool" if pc.cls == "S" else "TaskPool"
-        if pcfg.get("name") is not None and pc.pool_str != f"{exp_cls}-{pcfg['name']}":
+        if pcfg.get("name") and pc.pool_str != f"{exp_cls}-{pcfg['name']}":
             self.violate("C11", "pool_name", f"{pc.pool_str!r} for name {pcfg['name']!r}")
         if any(p.closed for p in self.pools[:i]):
             self.stats["probe:pool_created_after_a_close"] += 1
@@ -494,6 +559,12 @@ class Sim:
             args = (Payload((tag, "a0")), Payload((tag, "a1")))
         if shape in (2, 3):
             kwargs = {"kw_x": Payload((tag, "k0"))}
+        if shape == 5:
+            # keyword names that happen to coincide with parameter names the library uses internally
+            kwargs = {k: Payload((tag, k)) for k in ("group_name", "func", "num", "end_callback")}
+        if shape == 6:
+            args = (Payload((tag, "a0")),)
+            kwargs = {k: Payload((tag, k)) for k in ("self", "args", "kwargs", "cancel_callback", "group_size", "coroutine")}
         return args, kwargs
 
     # ------------------------------------------------------------------ user code: functions
@@ -506,6 +577,15 @@ class Sim:
             plain.__name__ = fname
             plain.__qualname__ = fname
             return plain
+        if fk == "pmeth":
+            # an ordinary coroutine function again, this time as the bound method of an object nothing else refers to
+            async def meth(_self, *args, **kwargs):
+                inv = sim._on_call(owner, args, kwargs, True)
+                return await sim._body(inv)
+            meth.__name__ = fname
+            meth.__qualname__ = "Owner." + fname
+            self.stats["probe:bound_method_worker"] += 1
+            return getattr(type("Owner", (), {fname: meth})(), fname)
 
         def factory(*args, **kwargs):
             inv = sim._on_call(owner, args, kwargs, False)
@@ -583,7 +663,9 @@ class Sim:
                 req.skipped += 1
                 req.pc.call_failures += 1
                 self.stats["fault:factory_raises"] += 1
-                e = FactoryError(f"r{req.label}#{idx}")
+                # the kind of exception user code raises is up to the user: vary it
+                fx = (req.spec.get("fx") or req.pc.cfg.get("fx") or 0) + idx
+                e = _FACTORY_EXC[fx % len(_FACTORY_EXC)](f"r{req.label}#{idx} (injected)")
                 raise e
         return inv
 
@@ -665,6 +747,22 @@ class Sim:
         if kind is None:
             return None
         sim = self
+        if kind[-1] in "mop":
+            # the same callback in another legal shape: a bound method of an object that only the pool (through the
+            # method) refers to / an instance with __call__ / a functools.partial with a bound leading argument
+            inner = self._make_cb(owner, which, kind[:-1])
+            is_sync = kind[0] == "s"
+            if kind[-1] == "m":
+                self.stats["probe:bound_method_callback"] += 1
+                o = _CbOwner(inner)
+                return o.on_task if is_sync else o.on_task_async
+            if kind[-1] == "o" and is_sync:
+                self.stats["probe:callable_object_callback"] += 1
+                return _CbCallable(inner)
+            self.stats["probe:partial_callback"] += 1
+            if is_sync:
+                return functools.partial(_cb_with_prefix, inner, "bound")
+            return functools.partial(_acb_with_prefix, inner, "bound")
         raising = kind.endswith("x")
         base = kind[0]
 
@@ -770,6 +868,8 @@ class Sim:
             self.violate("C08", "task_after_close", f"task {name} created in closed pool")
         if pc.size is not None and pc.n_run > pc.size and not pc.size_changed:
             self.violate("C01", "created_over_size", f"{pc.pool_str}: {pc.n_run} tasks for size {pc.size}")
+            if pc.resized_idle:
+                self.violate("C15", "assigned_limit_in_force", f"{pc.pool_str}: {pc.n_run} tasks although pool_size={pc.size} was assigned to the empty pool")
         if req.nc is not None:
             r = sum(1 for t in req.tasks if t.state in ("U", "L"))
             if r > req.nc:
@@ -805,6 +905,8 @@ class Sim:
         self.ev("ws", pc.idx, trec.n)
         if pc.size is not None and pc.live > pc.size and not pc.size_changed:
             self.violate("C01", "live_over_size", f"{pc.pool_str}: {pc.live} workers live, size {pc.size}")
+            if pc.resized_idle:
+                self.violate("C15", "assigned_limit_in_force", f"{pc.pool_str}: {pc.live} workers live although pool_size={pc.size} was assigned to the empty pool")
         if req.cancelled_seq is not None and not req.iter_failed:
             self.violate("C07", "start_after_cancel", f"{trec.name} of cancelled r{req.label} started")
         if pc.closed:
@@ -1066,6 +1168,8 @@ class Sim:
                     if r.elems is None:
                         if not full and not r.spawner_done():
                             self.violate("C02", "work_conservation", f"idle: r{r.label} has invocations left, pool {pc.pool_str} not full")
+                            if pc.resized_idle:
+                                self.violate("C15", "assigned_room_unused", f"idle: r{r.label} waits although fewer than the assigned pool_size={pc.size} tasks run")
                             self.violate_progress(pc, "C04", "work_conservation", f"idle: r{r.label} has invocations left, pool {pc.pool_str} not full")
                         elif r.spawner_done():
                             self.violate_progress(pc, "C04", "spawner_gone", f"idle: spawner of r{r.label} finished with invocations left")
@@ -1208,7 +1312,10 @@ class Sim:
                         tup = (Payload(("el", label, i, 0)), Payload(("el", label, i, 1)))
                         elems.append(7 if b == 1 else (() if b == 2 else (_OneShot(tup) if b == 3 else tup)))
                     else:
-                        elems.append(7 if b == 1 else ({} if b == 2 else {"kw_a": Payload(("el", label, i, "a"))}))
+                        if b == 5:
+                            elems.append({k: Payload(("el", label, i, k)) for k in ("group_name", "func", "self", "end_callback")})
+                        else:
+                            elems.append(7 if b == 1 else ({} if b == 2 else {"kw_a": Payload(("el", label, i, "a"))}))
                 req.elems = elems
         func = req.func
         if bad == "notcoro":
@@ -1252,6 +1359,8 @@ class Sim:
                     if gn is not None:
                         kw["group_name"] = gn
                     it = self._arg_iter(req)
+                    if step.get("itk") == 1:
+                        it = _ReIterable(self, req)
                     ret = getattr(pool, kind)(func, it, req.nc, end_callback=ecb, cancel_callback=ccb, **kw)
             except Exception as e:
                 exc = e
@@ -1600,6 +1709,7 @@ class Sim:
     def _forget_begin(self, d):
         pc = d.pc
         snap = []
+        zero = [t for t in pc.tasks if t.forget == 0]
         for t in pc.tasks:
             if t.state == "E" and t.forget < 2:
                 if not t.done_flag and t.task.done():
@@ -1612,6 +1722,12 @@ class Sim:
                     snap.append(t)
         pc.pending_done = [t for t in pc.pending_done if not t.done_flag]
         d.snapshot = snap
+        d.sure = zero if d.kind == "gather" else [t for t in zero if t.forget == 1]
+        if pc.act_drivers:
+            d.overlapped = True
+            for o in pc.act_drivers:
+                o.overlapped = True
+        pc.act_drivers.append(d)
         pc.active_flush += 1
         d.state = "active"
         d.seq_start = self.tick()
@@ -1646,6 +1762,7 @@ class Sim:
             return
         self.tick()
         pc.active_flush -= 1
+        pc.act_drivers.remove(d)
         d.seq_end = self.seq
         self.ev("flush_end", pc.idx, type(exc).__name__ if exc else None)
         if exc is not None:
@@ -1663,8 +1780,26 @@ class Sim:
                 self.stats["probe:flush_raised_injected"] += 1
         else:
             d.state = "returned"
+            if not d.rex:
+                self._check_swallowed(d, "flush")
             self._forget_commit(d)
         self.check_counters("flush_end")
+
+    def _check_swallowed(self, d, what):
+        """The call returned normally with return_exceptions=False: none of the tasks it certainly covers (ended, for
+        flush, or simply in the pool, for gather_and_close, and never possibly forgotten by an earlier or overlapping
+        flush) may have ended with an exception of user code - that exception is what the call raises."""
+        if d.overlapped:
+            return
+        for t in d.sure:
+            if t.forget == 2 or not t.task.done() or t.task.cancelled():
+                continue
+            e = t.task.exception()
+            if e is not None and any(e is x for x in self.injected):
+                self.violate("C12", "exception_swallowed", f"{what}() returned normally although {t.name} ended with {type(e).__name__}: {e}")
+                if what == "flush":
+                    self.violate("C13", "exception_swallowed", f"flush() returned normally although {t.name} ended with {type(e).__name__}: {e}")
+                return
 
     def _op_gather(self, step, ctx):
         pc = self._pc(step)
@@ -1708,6 +1843,7 @@ class Sim:
             return
         self.tick()
         pc.active_flush -= 1
+        pc.act_drivers.remove(d)
         d.seq_end = self.seq
         self.ev("gather_end", pc.idx, type(exc).__name__ if exc else None)
         if exc is not None:
@@ -1740,6 +1876,8 @@ class Sim:
             if w.state == "returned" and not pc.closed:
                 pass
         pc.closed = True
+        if not d.rex:
+            self._check_swallowed(d, "gather_and_close")
         self._forget_commit(d, everything=True)
         for t in pc.tasks:
             if t.state != "E":
@@ -1879,6 +2017,37 @@ class Sim:
         elif got != exp:
             self.violate("C15", "getter_idle", f"pool_size={got} on an empty pool, configured maximum {exp}",
                          tainted=pc.set_while_busy)
+        return True
+
+    def _pool_is_empty(self, pc):
+        return not (pc.n_run or pc.n_C or pc.cb_open or pc.closed or pc.size_changed
+                    or any(t.early for t in pc.tasks)
+                    or any(r.accepted_seq is not None and (r.work_left() or not r.spawner_done()) for r in pc.reqs))
+
+    def _op_resize_idle(self, step, ctx):
+        """A new size is assigned while the pool is empty (no task, no callback, no request in progress): from then
+        on the pool is a pool of that size, and every limit oracle continues with the new value."""
+        pc = self._pc(step)
+        if pc is None or ctx is not None or not self._pool_is_empty(pc):
+            return False
+        import math
+        v = step["v"]
+        val = math.inf if v is None else v
+        try:
+            pc.pool.pool_size = val
+        except Exception as e:
+            self.violate("C15", "set_raised", f"pool_size={v} on an empty pool raised {type(e).__name__}: {e}")
+            return True
+        got = pc.pool.pool_size
+        if got != val:
+            self.violate("C15", "getter_idle", f"pool_size={got} right after pool_size={val} was assigned to an empty pool")
+        self.stats["probe:size_assigned_to_empty_pool"] += 1
+        if (pc.size is None) != (v is None):
+            self.stats["probe:empty_pool_bounded_unbounded_switch"] += 1
+        pc.size = v
+        pc.limit = v
+        pc.resized_idle = True
+        self.ev("resize_idle", pc.idx, str(v))
         return True
 
     def _op_size_set(self, step, ctx):
